@@ -244,7 +244,7 @@ Theorem c08_overlap_begin_end_is_run :
 Proof. exact begin_end_is_run. Qed.
 Print Assumptions c08_overlap_begin_end_is_run.
 
-(* the history the correspondence check observes ([run_case] maps [ctrace]) is the one these theorems speak about *)
+(* [crun] and [ctrace] are the same history *)
 Theorem c08_ctrace_is_crun :
   forall c ops cs,
     crun c cs ops =
@@ -252,6 +252,112 @@ Theorem c08_ctrace_is_crun :
      flat_map (fun x => match snd x with Some r => [r] | None => [] end) (ctrace c cs ops)).
 Proof. exact ctrace_crun. Qed.
 Print Assumptions c08_ctrace_is_crun.
+
+(* ====================================================================== *)
+(* Observers that RAISE.  run() hands a fresh result of the gate to the caller's on_block / on_permit callback
+   after the breaker was updated and outside the try that guards the agents; an exception raised by the callback
+   leaves run() as it is, so the caller gets that exception instead of the LoopResult.  Vocabulary (Model.v):
+   [hooks] = which of the two callbacks were passed to the constructor; a history is a list of [kop] = a [cop]
+   paired with what the observer does if it is called during that operation ([CbReturns | CbRaises]);
+   [krun c k (s, fl) ops] gives the state, the requests in flight and the replies [Returned res | Raised res]
+   ([res] = the result the observer was handed) in the order in which they were given.  [run_case] - what the
+   correspondence check evaluates - is [ktrace]. *)
+
+(* The callbacks never move the breaker (or anything else): whatever observers are installed and whichever of
+   their calls raise, the loop state after the history and the result computed for every request are those of
+   the same history without observers - so every theorem above is a theorem about histories with raising
+   observers (the four after this one are the instances the property text names). *)
+Theorem c08_callbacks_never_move_the_breaker :
+  forall c k ops cs,
+    crun c cs (map fst ops) =
+    (fst (krun c k cs ops), map (fun x => (fst x, reply_result (snd x))) (snd (krun c k cs ops))).
+Proof. exact krun_erase. Qed.
+Print Assumptions c08_callbacks_never_move_the_breaker.
+
+(* One request: state and result are those of run() without observers; run() raises only when an installed
+   observer was called - for a fresh result of the gate: never for a refusal, a cache hit or an agent exception -
+   and that call raised. *)
+Theorem c08_callback_raises_only_after_bookkeeping :
+  forall c k b s r s' p,
+    run_req_k c k b s r = (s', p) ->
+    run_req c s r = (s', reply_result p) /\
+    (is_raised p = true ->
+       b = CbRaises /\ hooked k (reply_result p) = true /\ fresh_gate (reply_result p)) /\
+    (b = CbReturns \/ hooked k (reply_result p) = false \/ ~ fresh_gate (reply_result p) -> is_raised p = false).
+Proof. exact cb_request_proof. Qed.
+Print Assumptions c08_callback_raises_only_after_bookkeeping.
+
+(* never opens before the threshold has been reached in total: a request is a failure by what the agents did,
+   whether run() returned its result or raised the observer's exception; nothing else is ever counted *)
+Theorem c08_cb_open_implies_threshold_reached :
+  forall c k s fl ops s' fl' rs,
+    interim c = false ->
+    circ (br s) = Closed -> fcount (br s) = 0 ->
+    krun c k (s, fl) ops = ((s', fl'), rs) ->
+    (circ (br s') <> Closed ->
+       threshold c <= count_failures (map (fun x => reply_result (snd x)) rs) /\
+       threshold c <= fcount (br s') /\ last_failure (br s') <> None) /\
+    (trips (br s) < trips (br s') ->
+       threshold c <= count_failures (map (fun x => reply_result (snd x)) rs)).
+Proof. exact cb_open_implies_threshold_proof. Qed.
+Print Assumptions c08_cb_open_implies_threshold_reached.
+
+(* intentional blocks are never counted as failures - whether or not on_block raises *)
+Theorem c08_cb_blocks_not_failures :
+  forall c k ops s fl s' fl' rs,
+    interim c = false ->
+    requests_only (map fst ops) -> krun c k (s, fl) (seqk ops) = ((s', fl'), rs) ->
+    Forall (fun x => blockb (reply_result (snd x)) = true) rs ->
+    fcount (br s') = fcount (br s) /\ trips (br s') = trips (br s) /\
+    last_failure (br s') = last_failure (br s) /\
+    (circ (br s') = circ (br s) \/ (circ (br s) = Open /\ circ (br s') = HalfOpen)).
+Proof. exact cb_blocks_not_failures_proof. Qed.
+Print Assumptions c08_cb_blocks_not_failures.
+
+(* a successful probe closes the breaker and clears the count - whether or not on_permit raises *)
+Theorem c08_cb_probe_success_closes_and_clears :
+  forall c k b s r s' p,
+    enabled c = true -> probe_state c s ->
+    run_req_k c k b s r = (s', p) -> successb (reply_result p) = true ->
+    circ (br s') = Closed /\ fcount (br s') = 0 /\ trips (br s') = trips (br s).
+Proof. exact cb_probe_success_proof. Qed.
+Print Assumptions c08_cb_probe_success_closes_and_clears.
+
+(* a failed probe re-opens, counts ONE failure and restarts the timeout - whether or not on_block raises *)
+Theorem c08_cb_probe_failure_reopens_and_restarts :
+  forall c k b s r s' p,
+    legacy c = false -> interim c = false -> enabled c = true -> probe_state c s ->
+    run_req_k c k b s r = (s', p) -> failureb (reply_result p) = true ->
+    circ (br s') = Open /\ last_failure (br s') = Some (now s') /\
+    trips (br s') = trips (br s) + 1 /\ fcount (br s') = fcount (br s) + 1.
+Proof. exact cb_probe_failure_proof. Qed.
+Print Assumptions c08_cb_probe_failure_reopens_and_restarts.
+
+(* isolation while open, observers installed: every request that arrives is answered CIRCUIT_OPEN by a run() that
+   RETURNS (no observer is called for it), whatever the observers of the stragglers answered meanwhile do *)
+Theorem c08_cb_open_isolates :
+  forall c k ops s fl lf s' fl' rs,
+    enabled c = true -> circ (br s) = Open -> last_failure (br s) = Some lf -> lf <= now s ->
+    crequests_only (map fst ops) -> cmonotone (map fst ops) -> fl_monotone fl ->
+    krun c k (s, fl) ops = ((s', fl'), rs) -> now s' - lf < timeout c ->
+    Forall (fun x => fst x = true -> snd x = Returned res_circuit_open) rs /\
+    circ (br s') = Open /\
+    (exists lf', last_failure (br s') = Some lf' /\ lf <= lf' /\ lf' <= now s') /\
+    fcount (br s) <= fcount (br s') /\ trips (br s') = trips (br s) /\ zcalls s' = zcalls s /\
+    (length fl' <= length fl)%nat /\
+    0 <= ycalls s' - ycalls s <= Z.of_nat (length fl) - Z.of_nat (length fl') /\
+    spent s' = spent s + cost c * (ycalls s' - ycalls s).
+Proof. exact cb_open_isolates_proof. Qed.
+Print Assumptions c08_cb_open_isolates.
+
+(* the history the correspondence check observes ([run_case] maps [ktrace]) is the one these theorems speak about *)
+Theorem c08_ktrace_is_krun :
+  forall c k ops cs,
+    krun c k cs ops =
+    (last (map (fun x => snd (fst x)) (ktrace c k cs ops)) cs,
+     flat_map (fun x => match snd x with Some r => [r] | None => [] end) (ktrace c k cs ops)).
+Proof. exact ktrace_krun. Qed.
+Print Assumptions c08_ktrace_is_krun.
 
 (* ====================================================================== *)
 (* The breaker automaton of the model is the code.  gen/Gen_C08.v is regenerated from operon_ai/topology/loops.py
